@@ -13,14 +13,20 @@ MANIFEST = {
             'values in [0,256^r), with r bytes per value; out-of-range values are rejected; byte_length(q) >= 1 and '
             'q <= 256^byte_length(q) for every order q >= 1, hence every list of reduced values of any field round-trips; '
             'signed_ v is congruent to v mod p with -p/2 < signed_ v <= p/2, unsigned_ v = v, int() converts back to the '
-            'element. The model is compared exactly with the real classmethods on every run (list lengths 0..40 for five '
+            'element; pickle_same_field: recreating a prime field from (p, n, root) hits the cache key of GF((p, n, w)) for '
+            'every w. The model is compared exactly with the real classmethods on every run (list lengths 0..40 for five '
             'fields, ten lengths in 0..40 for the other 30, all field kinds for the byte functions; prime fields for the '
             'signed views); the implementation oracle runs lengths 0..40 on all 35 fields.',
     'note': 'bytes/int.to_bytes/int.from_bytes of CPython are modelled (little-endian digits base 256), not verified. '
             'For extension/binary fields the byte functions act on the integer image of the polynomial value '
             '(gfpx _to_int/_from_int, not modelled in Coq here): covered by the implementation oracle F(from_bytes(to_bytes)) '
-            'only. Pickle (__reduce__/createGF and the pickle machinery) is not modelled: tested on the implementation '
-            '(equal element, same cached field class object, protocols 0..5, copy/deepcopy). Array classes ignored.',
+            'only. Pickle: only the cache-key contract is modelled (GF() normalises w mod p, pGF stores root = w mod p, '
+            '__reduce__ recreates from (p, n, root)): theorem pickle_same_field for every w, and a refutation for the '
+            'un-normalised variant (the code before /repo 35f6b0f, finding F-C22-1, fixed); functools.cache and the pickle '
+            'machinery themselves are not verified: tested on the implementation (equal element, same cached field class '
+            'object, protocols 0..5, copy/deepcopy), incl. prime fields made from tuple moduli (p, n, w) with w negative, '
+            'canonical and >= p. Array classes: only class identity / pickle / bytes of F.array on tuple-modulus fields when '
+            'NumPy is importable (it is not in /venv).',
     'technique': 'Coq proof (induction over lists / base-256 digits) + vm_compute correspondence + implementation oracle incl. pickle',
 }
 
@@ -174,6 +180,67 @@ def run(ctx):
         back = pickle.loads(pickle.dumps(lst))
         if back != lst or any(type(b) is not F for b in back):
             bad('pickle-list ' + name, field=name)
+    # ---- prime fields created from tuple moduli (p, n, w), w canonical / negative / >= p
+    ntm = 0
+    try:
+        from mpyc.numpy import np
+    except Exception:  # pragma: no cover
+        np = None
+    tuples = []
+    for (p, n, w0) in [(7, 2, 6), (11, 5, 3), (11, 2, 10), (2, 1, 1), (3, 2, 2), (13, 3, 3), (101, 2, 100), (257, 256, 3),
+                       (p64, 2, p64 - 1), (2 ** 61 - 1, 2, 2 ** 61 - 2)]:
+        for w in (w0 - p, w0, w0 + p, w0 - 3 * p, w0 + 2 * p):     # the defect's order: non-canonical first
+            tuples.append((p, n, w))
+    for _ in range(ctx.n(10, 60)):
+        p = rng.choice([5, 7, 11, 31, 101, 257, p64])
+        tuples.append((p, rng.choice([1, 2, 3, 5]), rng.randrange(-3 * p, 3 * p)))
+    for (p, n, w) in tuples:
+        name = 'GF((%d, %d, %d))' % (p, n, w)
+        F = finfields.GF((p, n, w))
+        Fc = finfields.GF((p, n, w % p))
+        ntm += 1
+        if F.modulus != p or F.nth != n or F.root != w % p or F.order != p or F.byte_length != (p.bit_length() + 7) >> 3:
+            bad('tuple-modulus-attributes ' + name, modulus=[p, n, w], root=F.root, nth=F.nth)
+        if F is not Fc or finfields.GF((p, n, w % p + p)) is not F:
+            bad('tuple-modulus-class-identity ' + name, modulus=[p, n, w], other=[p, n, w % p], same_object=F is Fc)
+        if (n, w % p) == ((2, p - 1) if p > 2 else (1, 1)) and finfields.GF(p) is not F:
+            bad('tuple-modulus-class-identity ' + name, modulus=[p, n, w], other=p, same_object=False)
+        if np and (F.array is not Fc.array or F.array.field is not F):
+            bad('tuple-modulus-array-identity ' + name, modulus=[p, n, w])
+        vals = list(range(p)) if p <= 13 else sorted(set([0, 1, p - 1, p // 2, p // 2 + 1] + [rng.randrange(p) for _ in range(6)]))
+        for v in vals:
+            a = F(v)
+            for proto in (0, 2, pickle.HIGHEST_PROTOCOL):
+                b = pickle.loads(pickle.dumps(a, protocol=proto))
+                if type(b) is not type(a) or not (b == a) or b != a or b.value != a.value or type(b).root != F.root or type(b).nth != F.nth:
+                    bad('tuple-modulus-pickle ' + name, modulus=[p, n, w], v=v, protocol=proto, type_same=type(b) is type(a),
+                        equal=bool(b == a) if type(b) is type(a) else False, root=getattr(type(b), 'root', None))
+            b = copy.deepcopy(a)
+            if type(b) is not F or b != a:
+                bad('tuple-modulus-copy ' + name, modulus=[p, n, w], v=v)
+            s_, u_, i_ = a.signed_(), a.unsigned_(), int(a)
+            if (s_ - v) % p or not (-p < 2 * s_ <= p) or u_ != v or i_ != s_ or F(s_) != a:
+                bad('tuple-modulus-views ' + name, modulus=[p, n, w], v=v, signed=s_, unsigned=u_)
+            ctx.case({'tm': [p, n, w], 'v': v}, nontrivial=w % p != w, kind='prime tuple-modulus ' + ('canonical w' if w % p == w else 'w outside [0,p)'))
+        data = F.to_bytes(vals)
+        if F.from_bytes(data) != vals or data != Fc.to_bytes(vals) or len(data) != F.byte_length * len(vals):
+            bad('tuple-modulus-bytes ' + name, modulus=[p, n, w], values=vals)
+        if np:
+            arr = F.array(vals)
+            try:
+                brr = pickle.loads(pickle.dumps(arr))
+                if type(brr) is not type(arr) or type(brr).field is not F or not bool((brr == arr).all()):
+                    bad('tuple-modulus-array-pickle ' + name, modulus=[p, n, w])
+            except Exception as ex:  # noqa
+                bad('tuple-modulus-array-pickle ' + name, modulus=[p, n, w], raised=repr(ex))
+            if F.from_bytes(F.to_bytes(arr.value.tolist())) != vals:
+                bad('tuple-modulus-array-bytes ' + name, modulus=[p, n, w])
+        # the model of the cache keys
+        exprs.append('(Serial.pickle_roundtrip true %s %s %s 3, Serial.gf_key true %s %s %s)' % (zlit(p), zlit(n), zlit(w), zlit(p), zlit(n), zlit(w)))
+        meta.append(('pk', name, (p, n, w), None))
+    ctx.extra['tuple_modulus_fields_checked'] = ntm
+    ctx.notes.append('numpy available for the array-type part of the tuple-modulus stream: %s' % bool(np))
+
     ctx.extra['roundtrips_checked'] = nrt
     ctx.extra['views_checked'] = nview
     ctx.extra['pickles_checked'] = npk
@@ -197,6 +264,9 @@ def run(ctx):
                 good = list(r[0]) == [('Some', d_) for d_ in data] and list(r[1]) == back
             elif m[0] == 'rej':
                 good = r is None
+            elif m[0] == 'pk':
+                p_, n_, w_ = m[2]
+                good = tuple(r) == (p_, n_, w_ % p_, 3, (p_, n_, w_ % p_))     # Coq prints left-nested pairs flat
             elif m[0] == 'view':
                 good = (list(r[0]), list(r[1]), list(r[2])) == m[3]
             if not good:
